@@ -577,14 +577,14 @@ End PNRel.
 
 From Verif Require Import Repro.StructSortProofs.
 
-Lemma pn_sort_refines fs :
+Lemma pn_sort_refines sk fs :
   names_nodup fs = true ->
-  In (false, nd_sort fs) (sp_cands PSort fs) /\ names_nodup (nd_sort fs) = true.
+  In (false, nd_sort sk fs) (sp_cands (PSort sk) fs) /\ names_nodup (nd_sort sk fs) = true.
 Proof.
   intros Hnd. split.
-  - eapply accept_in with (pl := PlSort) (neg := false); [reflexivity|]. left. reflexivity.
+  - eapply accept_in with (pl := PlSort sk) (neg := false); [reflexivity|]. left. reflexivity.
   - unfold nd_sort. apply (names_nodup_perm (nl fs)); [|now rewrite names_nodup_nl].
-    symmetry. apply sort_by_perm.
+    symmetry. apply sort_fields_by_perm.
 Qed.
 
 Lemma set_mask_alone n v a f b :
